@@ -404,6 +404,7 @@ def ode2c(
         outname=outname,
         scheme=scheme,
         remove_unused=remove_unused,
+        format=format,
         verbose=verbose,
         stiff_states=stiff_states,
         delta=delta,
